@@ -2,7 +2,10 @@
 """Regenerate MANIFEST.json from props.json + not_applicable.json (keeps it valid at all times)."""
 import json, os, subprocess
 ROOT = os.path.dirname(os.path.dirname(os.path.abspath(__file__)))
-reg = json.load(open(os.path.join(ROOT, 'props.json')))
+reg = {}
+for f in sorted(os.listdir(os.path.join(ROOT, 'props'))):
+    if f.endswith('.json'):
+        reg[f[:-5]] = json.load(open(os.path.join(ROOT, 'props', f)))
 na = json.load(open(os.path.join(ROOT, 'not_applicable.json')))
 hooks = json.load(open(os.path.join(ROOT, 'hooks.json')))
 checks = []
